@@ -11,7 +11,7 @@ import FgaVerif.Model.CstParse
 import FgaVerif.Model.ModFile
 import FgaVerif.Model.PGraph
 import FgaVerif.Model.WGraph
-import FgaVerif.Spec.Weights
+import FgaVerif.Spec.WeightsSem
 import FgaVerif.Gen.Atn
 import FgaVerif.Model.Conform
 import FgaVerif.Gen.Grammar
@@ -221,8 +221,10 @@ def opWSpec (m : Sexp) (grouped : Bool) : String :=
     | .ok _ =>
       let g := Spec.Weights.sgraph grouped mdl
       let rs := Spec.Weights.rejects g
-      -- hypotheses of Props/C04, C05, C11: the iteration reached a fixed point, node names are distinct, every referenced node exists
-      if !(Spec.Weights.isFixpoint g (Spec.Weights.weights g) && decide ((g.map (·.name)).Nodup) && Spec.Weights.closedB g) then "(unconverged)"
+      -- hypotheses of Props/C04, C05, C11: the iteration reached a fixed point, node names are distinct, every referenced
+      -- node exists, every value is Infinite or below the saturation threshold
+      if !(Spec.Weights.isFixpoint g (Spec.Weights.weights g) && decide ((g.map (·.name)).Nodup) && Spec.Weights.closedB g
+            && Spec.Weights.normalB g (Spec.Weights.weights g)) then "(unconverged)"
       else if !rs.isEmpty then
         let kinds := (rs.map fun r => match r with
           | .rewriteCycle _ => "rewrite-cycle" | .operatorOnCycle _ => "operator-on-cycle" | .noTerminal _ => "no-terminal").eraseDups
